@@ -34,7 +34,7 @@ def cases(tier, seed):
             case["nproc"] = rng.choice([2, 3])          # real process pools (slow): a few
         if h % 9 == 5 or h % 16 == 3:
             case["via"] = "cli"
-            case["fieldstyle"] = h % 4
+            case["fieldstyle"] = (h // 3) % 4
             if h % 16 == 3:
                 case["aggs"] = [rng.choice(["max", "min"])] + case["aggs"][1:]      # a non-default aggregate for count
         if h % 6 == 1 and ncols == 1:
